@@ -256,12 +256,19 @@ func walkInstr(s ast.Stmt, root string) Instr {
 			return unknown
 		}
 		deferred := false
+		trailVar := ""
 		switch d := ifs.Body.List[0].(type) {
 		case *ast.DeferStmt:
 			if src(d.Call) != "Walk(&"+v+", f)" {
 				return unknown
 			}
 			deferred = true
+		case *ast.AssignStmt:
+			// trailing = &c : remembered, walked after the switch and before f(nil)
+			if len(d.Lhs) != 1 || len(d.Rhs) != 1 || src(d.Rhs[0]) != "&"+v || d.Tok != token.ASSIGN {
+				return unknown
+			}
+			trailVar = src(d.Lhs[0])
 		default:
 			return unknown
 		}
@@ -271,7 +278,7 @@ func walkInstr(s ast.Stmt, root string) Instr {
 		if src(s.Body.List[1]) != "Walk(&"+v+", f)" {
 			return unknown
 		}
-		return Instr{Op: "split", Field: path, Cond: src(ifs.Cond), Defer: deferred}
+		return Instr{Op: "split", Field: path, Cond: src(ifs.Cond), Defer: deferred, Text: trailVar}
 	}
 	return unknown
 }
@@ -283,6 +290,11 @@ type WalkFacts struct {
 	PreCheck    string             `json:"pre"`  // statements before the switch
 	PostCheck   string             `json:"post"` // statements after the switch
 	PreorderSrc string             `json:"preorder_src"`
+	TrailVar    string             `json:"trail_var"`
+	TrailWalked bool               `json:"trail_walked"`
+	EntryCheck  bool               `json:"entry_check"`
+	NilCall     int                `json:"nil_calls"`
+	FrameOther  []string           `json:"frame_other"`
 }
 
 func walkFacts(p *pkgInfo) *WalkFacts {
@@ -331,6 +343,38 @@ func walkFacts(p *pkgInfo) *WalkFacts {
 	}
 	wf.PreCheck = strings.Join(pre, " ; ")
 	wf.PostCheck = strings.Join(post, " ; ")
+	// structured view of the frame: `if !f(node) { return }` [var X *Comment] switch … [if X != nil { Walk(X, f) }] f(nil)
+	for _, s := range fd.Body.List {
+		switch s := s.(type) {
+		case *ast.DeclStmt:
+			if gd, ok := s.Decl.(*ast.GenDecl); ok && gd.Tok == token.VAR && len(gd.Specs) == 1 {
+				vs := gd.Specs[0].(*ast.ValueSpec)
+				if len(vs.Names) == 1 && len(vs.Values) == 0 {
+					wf.TrailVar = vs.Names[0].Name
+				}
+			}
+		case *ast.IfStmt:
+			if wf.TrailVar != "" && src(s.Cond) == wf.TrailVar+" != nil" && len(s.Body.List) == 1 && src(s.Body.List[0]) == "Walk("+wf.TrailVar+", f)" && s.Else == nil {
+				wf.TrailWalked = true
+			} else if src(s.Cond) == "!f(node)" && len(s.Body.List) == 1 && src(s.Body.List[0]) == "return" {
+				wf.EntryCheck = true
+			} else {
+				wf.FrameOther = append(wf.FrameOther, src(s))
+			}
+		case *ast.ExprStmt:
+			if src(s) == "f(nil)" {
+				if s != fd.Body.List[len(fd.Body.List)-1] {
+					wf.FrameOther = append(wf.FrameOther, "f(nil) is not the last statement")
+				}
+				wf.NilCall++
+			} else {
+				wf.FrameOther = append(wf.FrameOther, src(s))
+			}
+		case *ast.TypeSwitchStmt:
+		default:
+			wf.FrameOther = append(wf.FrameOther, src(s))
+		}
+	}
 	if pf := p.funcDecl("", "Preorder"); pf != nil {
 		wf.PreorderSrc = src(pf.Body)
 	}
